@@ -699,6 +699,10 @@ func emitHandshakeResults(run *Run, res []hsResult) {
 		"insp": {"insp_case", "insp_mismatches"},
 	}
 	for _, h := range res {
+		if h.Kind == "skip" { // recorded in the distribution only
+			run.Count(h.Key, false, h.Kinds...)
+			continue
+		}
 		sh := shards[h.Kind]
 		if sh == nil {
 			sh = run.NewShard(c13Header, typ[h.Kind][0], typ[h.Kind][1])
@@ -951,9 +955,12 @@ func runHandshakes(run *Run, right, other *authority, ls []*listenerUnderTest, v
 	}
 
 	// ---- B3: MOSN as client (upstream side) against a reference server ----
+	// matrix: insecure_skip x server_name {matches, differs, unset} x configured CA {right, other, none, SDS secret without
+	// validation context} x certificate of the upstream {issued by right CA, by other CA, self-signed, right CA but expired}
 	type upSrv struct {
-		rel  int
-		cert gotls.Certificate
+		issuer  string // IssRight | IssOther | IssSelf
+		expired bool
+		cert    gotls.Certificate
 	}
 	mkSrv := func(a *authority, o leafOpt) gotls.Certificate {
 		lf, err := a.issue("up.test", []string{"up.test"}, o)
@@ -963,8 +970,13 @@ func runHandshakes(run *Run, right, other *authority, ls []*listenerUnderTest, v
 		kp, _ := gotls.X509KeyPair([]byte(lf.certPEM), []byte(lf.keyPEM))
 		return kp
 	}
-	servers := []upSrv{{1, mkSrv(right, leafOpt{selfSigned: true})}, {2, mkSrv(other, leafOpt{})}, {3, mkSrv(right, leafOpt{})}, {4, mkSrv(right, leafOpt{expired: true})}}
-	for _, us := range servers {
+	servers := []upSrv{{"IssSelf", false, mkSrv(right, leafOpt{selfSigned: true})}, {"IssOther", false, mkSrv(other, leafOpt{})},
+		{"IssRight", false, mkSrv(right, leafOpt{})}, {"IssRight", true, mkSrv(right, leafOpt{expired: true})}, {"IssOther", true, mkSrv(other, leafOpt{expired: true})}}
+	// the client certificate an SDS client context is completed with (an SDS provider is ready only with a certificate)
+	sdsLeaf, _ := right.issue("sds-client", []string{"sds-client.test"}, leafOpt{})
+	type caCfg struct{ coq, descr string }
+	cas := []caCfg{{"CaRight", "right-ca"}, {"CaOther", "other-ca"}, {"CaNone", "none"}, {"CaSdsNoValidation", "sds-without-validation-context"}}
+	for si, us := range servers {
 		ln := listenLocal()
 		srvRes := make(chan bool, 16)
 		go func(cert gotls.Certificate) {
@@ -988,43 +1000,71 @@ func runHandshakes(run *Run, right, other *authority, ls []*listenerUnderTest, v
 			}
 		}(us.cert)
 		for _, skip := range []bool{false, true} {
-			for _, sname := range []string{"up.test", "other.test", ""} {
-				cm, err := mtls.NewTLSClientContextManager("vh-up", &v2.TLSConfig{Status: true, ServerName: sname, CACert: right.pem, InsecureSkip: skip})
-				if err != nil {
-					panic(err)
-				}
-				raw, err := dialLocal(ln.Addr().String(), hsTimeout)
-				if err != nil {
-					panic(err)
-				}
-				raw.SetDeadline(time.Now().Add(hsTimeout))
-				c, cerr := cm.Conn(raw)
-				accepted := false
-				if cerr == nil {
-					if _, isTLS := c.(*mtls.TLSConn); isTLS {
-						c.SetDeadline(time.Now().Add(hsTimeout))
-						c.Write([]byte("ping"))
-						b := make([]byte, 4)
-						if _, err := io.ReadFull(c, b); err == nil && string(b) == "pong" {
-							accepted = true
-						}
+			for ni, sname := range []string{"up.test", "other.test", ""} {
+				for ci, ca := range cas {
+					tcfg := &v2.TLSConfig{Status: true, ServerName: sname, InsecureSkip: skip}
+					switch ca.coq {
+					case "CaRight":
+						tcfg.CACert = right.pem
+					case "CaOther":
+						tcfg.CACert = other.pem
+					case "CaSdsNoValidation":
+						tcfg.SdsConfig = &v2.SdsConfig{CertificateConfig: &v2.SecretConfigWrapper{Name: fmt.Sprintf("up-%s-%d-%d-%v-%d-%d", ver, run.Seed, si, skip, ni, ci)}}
 					}
-					c.Close()
-				} else {
-					raw.Close()
+					cm, err := mtls.NewTLSClientContextManager(fmt.Sprintf("vh-up-%s-%d-%v-%d-%d", ver, si, skip, ni, ci), tcfg)
+					if err != nil {
+						panic(err)
+					}
+					if tcfg.SdsConfig != nil {
+						n := tcfg.SdsConfig.CertificateConfig.Name
+						sds.SetSecret(n, &types.SdsSecret{Name: n, CertificatePEM: sdsLeaf.certPEM, PrivateKeyPEM: sdsLeaf.keyPEM})
+					}
+					nameCoq := []string{"NameMatches", "NameDiffers", "NameUnset"}[ni]
+					combo := fmt.Sprintf("server_name=%s,ca=%s,upstream-cert=%s%s", []string{"matching", "non-matching", "unset"}[ni], ca.descr,
+						map[string]string{"IssRight": "right-ca", "IssOther": "other-ca", "IssSelf": "self-signed"}[us.issuer], map[bool]string{true: "-expired", false: ""}[us.expired])
+					rp := map[string]interface{}{"part": "upstream", "ver": ver, "insecure_skip": skip, "server_name": sname, "configured_ca": ca.descr,
+						"upstream_certificate_issuer": us.issuer, "upstream_certificate_expired": us.expired, "combination": combo}
+					accepted := false
+					if !cm.Enabled() {
+						// TLS is not enabled on this cluster (no ready provider): the connection would be plaintext - recorded, not a handshake
+						rp["tls_enabled"] = false
+						out = append(out, hsResult{Kind: "skip", Ver: ver, Key: "up-disabled|" + combo, Kinds: []string{"upstream-tls-not-enabled-" + ver}, Rep: rp})
+						continue
+					}
+					raw, err := dialLocal(ln.Addr().String(), hsTimeout)
+					if err != nil {
+						panic(err)
+					}
+					raw.SetDeadline(time.Now().Add(hsTimeout))
+					c, cerr := cm.Conn(raw)
+					if cerr == nil {
+						if _, isTLS := c.(*mtls.TLSConn); isTLS {
+							c.SetDeadline(time.Now().Add(hsTimeout))
+							c.Write([]byte("ping"))
+							b := make([]byte, 4)
+							if _, err := io.ReadFull(c, b); err == nil && string(b) == "pong" {
+								accepted = true
+							}
+						}
+						c.Close()
+					} else {
+						raw.Close()
+					}
+					<-srvRes
+					rp["accepted"], rp["err"] = accepted, fmt.Sprint(cerr)
+					h := hsResult{Kind: "up", Ver: ver, Key: fmt.Sprintf("up|%s|%v|%s", ver, skip, combo), Kinds: []string{"upstream-" + ver, "upstream-ca=" + ca.descr}, Rep: rp,
+						Coq: fmt.Sprintf("(%s, %s, %s, %s, %s, %s)", CoqBool(skip), ca.coq, us.issuer, CoqBool(us.expired), nameCoq, CoqBool(accepted))}
+					// finder: the property text.  Without insecure_skip a handshake must fail unless the upstream certificate
+					// chains to the CONFIGURED CA (with no CA configured: to the host's roots, which these never do).
+					chains := !us.expired && ((ca.coq == "CaRight" && us.issuer == "IssRight") || (ca.coq == "CaOther" && us.issuer == "IssOther"))
+					if !skip && accepted && !chains {
+						h.FailSig, h.FailWhat = "tls-upstream:unverified-certificate-accepted:"+combo, fmt.Sprintf("insecure_skip is off but the handshake with an upstream whose certificate does not chain to the configured CA completed (%s)", combo)
+					}
+					if chains && ni == 0 && !accepted {
+						h.FailSig, h.FailWhat = "tls-upstream:valid-upstream-rejected:"+combo, "an upstream with a valid certificate of the configured CA for server_name was rejected"
+					}
+					out = append(out, h)
 				}
-				<-srvRes
-				nameOK := sname == "up.test"
-				rp := map[string]interface{}{"part": "upstream", "ver": ver, "insecure_skip": skip, "server_name": sname, "peer": relName(us.rel), "accepted": accepted, "err": fmt.Sprint(cerr)}
-				h := hsResult{Kind: "up", Ver: ver, Key: fmt.Sprintf("up|%s|%v|%s|%s", ver, skip, sname, relName(us.rel)), Kinds: []string{"upstream-" + ver}, Rep: rp,
-					Coq: fmt.Sprintf("(%s, %s, %s, %s)", CoqBool(skip), relName(us.rel), CoqBool(nameOK), CoqBool(accepted))}
-				if !skip && accepted && us.rel != 3 {
-					h.FailSig, h.FailWhat = "tls-upstream:unverified-upstream-accepted", fmt.Sprintf("insecure_skip is off but an upstream with relation %s was accepted", relName(us.rel))
-				}
-				if us.rel == 3 && nameOK && !accepted {
-					h.FailSig, h.FailWhat = "tls-upstream:valid-upstream-rejected", "an upstream with a valid certificate of the configured CA for server_name was rejected"
-				}
-				out = append(out, h)
 			}
 		}
 		ln.Close()
